@@ -37,14 +37,16 @@ func newFieldEffects(p *core.Program) *fieldEffects {
 					}
 					if sel, ok := l.(*ast.SelectorExpr); ok {
 						if f := core.FieldOf(info, sel); f != nil {
-							w[f] = true
+							if !ownValueField(info, sel) {
+								w[f] = true
+							}
 							lhs[sel] = true
 						}
 					}
 				}
 			case *ast.IncDecStmt:
 				if sel, ok := ast.Unparen(x.X).(*ast.SelectorExpr); ok {
-					if f := core.FieldOf(info, sel); f != nil {
+					if f := core.FieldOf(info, sel); f != nil && !ownValueField(info, sel) {
 						w[f] = true
 					}
 				}
@@ -84,4 +86,31 @@ func newFieldEffects(p *core.Program) *fieldEffects {
 		}
 	}
 	return fe
+}
+
+// ownValueField: the selector names a field of a struct held by value in a
+// local variable, parameter or value receiver (x.f, x.a.f with no pointer on
+// the way): assigning it changes the function's own copy, not a document.
+func ownValueField(info *types.Info, sel *ast.SelectorExpr) bool {
+	for {
+		t := info.TypeOf(sel.X)
+		if t == nil {
+			return false
+		}
+		if _, isStruct := t.Underlying().(*types.Struct); !isStruct {
+			return false
+		}
+		switch x := ast.Unparen(sel.X).(type) {
+		case *ast.Ident:
+			v, _ := info.Uses[x].(*types.Var)
+			return v != nil && !v.IsField() && v.Parent() != nil && v.Parent() != v.Pkg().Scope()
+		case *ast.SelectorExpr:
+			if core.FieldOf(info, x) == nil {
+				return false
+			}
+			sel = x
+		default:
+			return false
+		}
+	}
 }
